@@ -33,6 +33,15 @@ def r15_1(ctx):
                 r.ob("pragma lookup order", ok, C.mloc(mb, t),
                      "Option::or(receiver = self.%s, fallback = self.%s)" % ("/".join(sorted(a)), "/".join(sorted(b))) +
                      ("" if ok else " — the comment pragma must be the receiver and options.pragma the fallback"))
+    # nothing but the comment pragma, the option and the createVNode import decides the factory
+    root = C.mir_of(ctx, pf)
+    if root is not None:
+        fl0 = flow_of(ctx, root)
+        srcs = fl0.sources(0)
+        others = sorted({first_field(f) for f in self_field_of(srcs)} - {"pragma", "options", "vue_imports", ""})
+        r.ob("the factory comes from the comment pragma, the option or the createVNode import only", not others, C.mloc(root, root),
+             "result provenance: self.pragma / self.options.pragma / import" if not others else
+             "the result can also come from self.%s, outside the precedence comment > option > createVNode" % ", self.".join(others))
     if not found:
         # other shapes: the first branch on a pragma source must be the comment pragma
         hb = pf
